@@ -68,6 +68,10 @@ class Ctx:
         os.makedirs(os.path.join(self.build, "tmp"))
         os.makedirs(os.path.join(ROOT, "replays"), exist_ok=True)
         os.makedirs(os.path.join(ROOT, "evidence"), exist_ok=True)
+        # ids that are not among the given properties (X..: specification growth beyond the list) keep
+        # their evidence apart, so that evidence/ holds exactly one file per claimed property
+        self.evdir = os.path.join(ROOT, "evidence" if pid.startswith("C") else os.path.join("extras", "evidence"))
+        os.makedirs(self.evdir, exist_ok=True)
         self.thorough = self.tier == "thorough"
         self.mc = []          # model-checking runs
         self.cover = {}       # action coverage
@@ -471,7 +475,7 @@ class Ctx:
         ev = {"property_id": self.pid, "tier": self.tier, "seed": self.seed, "level": level,
               "coverage": cov, "assumptions": self.assumptions, "wall_s": wall,
               "violations": len(self.violations)}
-        with open(os.path.join(ROOT, "evidence", self.pid + ".json"), "w") as f:
+        with open(os.path.join(self.evdir, self.pid + ".json"), "w") as f:
             json.dump(ev, f, indent=1)
             f.write("\n")
         if not self.keep:
